@@ -511,13 +511,13 @@ def t2_cases(ctx):
     tables = [t for _, t in FIXED_TABLES]
     n_rand = 30 if ctx.quick else 200
     tables += [random_table(rng) for _ in range(n_rand)]
-    small = list(all_trees(4))  # 390 trees, exhaustive
+    small = list(all_trees(3 if ctx.quick else 4))  # exhaustive: 66 / 390 trees
     mid = list(all_trees(5)) if not ctx.quick else None
     cases = []
     for ti, tab in enumerate(tables):
         trees = list(small)
         if ctx.quick:
-            trees += [random_tree(rng, rng.choice([5, 6, 6]), lits=(0, 1) if ti % 2 else (0,)) for _ in range(60)]
+            trees += [random_tree(rng, rng.choice([4, 4, 5, 6, 6]), lits=(0, 1) if ti % 2 else (0,)) for _ in range(110)]
         else:
             trees = list(mid) + [random_tree(rng, 6) for _ in range(1500)]
             if ti < len(FIXED_TABLES):
@@ -556,7 +556,7 @@ def fam_drivers(ctx):
         inputs.append({"verb": v, "rules": tab, "tree": tree, "stage": st})
     f.compare(inputs, code, model, nontrivial)
     f.note = (f"{ntab} rule tables ({len(FIXED_TABLES)} hand-written incl. non-terminating and dependents-sensitive ones), all trees <= "
-              f"{4 if ctx.quick else 5} nodes over 3 classes + seeded trees of 5-6 nodes; outcomes {dict(outcomes)}; rerun with larger budget: {undecided}")
+              f"{3 if ctx.quick else 5} nodes over 3 classes + seeded trees of 4-6 nodes (thorough: + a quarter of all 6-node trees for the hand-written tables); outcomes {dict(outcomes)}; rerun with larger budget: {undecided}")
     return f
 
 
@@ -631,6 +631,7 @@ class FiringTracer:
         self.fired = collections.Counter()
         self.examples = {}  # key -> (parent_or_self expr, out expr) of the first firings
         self.keep_examples = keep_examples
+        self.order = []  # every firing in order (only with keep_examples)
         self._saved = []
 
     def __enter__(self):
@@ -651,8 +652,11 @@ class FiringTracer:
                     ref = parent if parent is not None else self
                     if isinstance(out, Expr) and out._name != ref._name:
                         tracer.fired[key] += 1
-                        if tracer.keep_examples and len(tracer.examples.setdefault(key, [])) < 2:
-                            tracer.examples[key].append((ref, out))
+                        if tracer.keep_examples:
+                            if len(tracer.examples.setdefault(key, [])) < 2:
+                                tracer.examples[key].append((ref, out))
+                            if len(tracer.order) < 80:
+                                tracer.order.append((key, ref, out))
                     return out
 
                 self._saved.append((cls, m, orig))
@@ -685,7 +689,9 @@ def rule_family(key):
         if parentcls in _C06 or selfcls in _C06:
             return "C06-len"
     if method == "_lower":
-        if any("Shuffle" in c for c in involved):
+        if selfcls in _C11:
+            return "C11-head-tail-partitions"
+        if any("Shuffle" in c or c == "RearrangeByColumn" for c in involved):
             return "C12-shuffle-lowering"
         if any("Repartition" in c for c in involved):
             return "C13-repartition-lowering"
@@ -769,15 +775,33 @@ def _len_expr(coll):
 
 
 _BY_NAME = None
+_VALID = {}
 
 
 def by_name():
+    """name -> Program for the whole enumerated space (validity on pandas is checked per program, see
+    `is_valid`: running all ~19k programs on pandas costs 20 s and the quick tier needs ~300 of them)"""
     global _BY_NAME
     if _BY_NAME is None:
-        _BY_NAME = {p.name: p for p in programs.valid_programs(2, "any")}
+        _BY_NAME = {p.name: p for p in programs.enumerate_programs(2)}
         for p in extra_programs():
             _BY_NAME[p.name] = p
     return _BY_NAME
+
+
+def is_valid(p):
+    """same criterion as programs.valid_programs(.., "any"): pandas itself runs the program (no MultiIndex result)"""
+    import pandas as pd
+
+    if p.name.startswith("x:"):
+        return True
+    if p.name not in _VALID:
+        try:
+            r = p.fn(programs.pandas_env())
+            _VALID[p.name] = not (isinstance(r, (pd.DataFrame, pd.Series)) and isinstance(r.index, pd.MultiIndex))
+        except Exception:  # noqa: BLE001
+            _VALID[p.name] = False
+    return _VALID[p.name]
 
 
 _UNARY = {o.name: o for o in programs.UNARY}
@@ -926,33 +950,83 @@ def _run_case_safe(case):
         return {"status": "harness-error", "program": case["program"], "why": traceback.format_exc()[-600:], "stages": 0}
 
 
+_METHOD_SENSITIVE = {"sort", "merge", "groupby", "dropdup", "value_counts", "extra"}
+
+
 def support_cases(ctx, broken):
     names = by_name()
-    must = [n for n in MUST if n in names] + [p.name for p in extra_programs()]
-    space = programs.valid_programs(2, "any")
+    must = [n for n in MUST if n in names and is_valid(names[n])] + [p.name for p in extra_programs()]
     cases = []
+    nl = len(plans.LAYOUTS)
     if ctx.quick:
-        sel = [p.name for p in plans.seeded_slice(ctx, space, 150)]
-        for n in must:
-            cases.append({"program": n, "layout": 0, "method": "tasks"})
-        for n in must:
-            cases.append({"program": n, "layout": 3 if len(cases) % 2 else 1, "method": "disk"})
-        for i, n in enumerate(sel):
-            cases.append({"program": n, "layout": i % len(plans.LAYOUTS), "method": METHODS[(i // len(plans.LAYOUTS)) % 2]})
+        rng = random.Random(ctx.seed * 31 + 1)
+        space = [n for n in names if not n.startswith("x:")]
+        rng.shuffle(space)
+        sel = []
+        for n in space:
+            if is_valid(names[n]):
+                sel.append(n)
+            if len(sel) >= 150:
+                break
+        for i, n in enumerate(must):
+            # both methods and a known-/unknown-divisions layout alternate over the must-run list
+            cases.append({"program": n, "layout": (0, 3, 1, 4)[i % 4], "method": METHODS[i % 2]})
+        for i, n in enumerate(sorted(sel)):
+            cases.append({"program": n, "layout": i % nl, "method": METHODS[(i // nl) % 2]})
     else:
-        allnames = must + [p.name for p in space if p.name not in set(must)]
-        for n in allnames:
-            for layout in range(len(plans.LAYOUTS)):
-                for m in METHODS:
+        # all programs x all layouts; both shuffle methods where the plan consults the configured default
+        # (sort / set_index / merge / groupby / drop_duplicates / value_counts / nunique), alternating otherwise
+        space = [p.name for p in programs.valid_programs(2, "any")]
+        mset = set(must)
+        for i, n in enumerate(must + [n for n in space if n not in mset]):
+            fams = set(names[n].families)
+            both = n in mset or bool(fams & _METHOD_SENSITIVE) or n.endswith("nunique0")
+            for layout in range(nl):
+                for m in (METHODS if both else [METHODS[(i + layout) % 2]]):
                     cases.append({"program": n, "layout": layout, "method": m})
     return cases
+
+
+def blame(case):
+    """for a failing case: the first traced rule firing whose output does not compute the same (multiset of
+    rows) as the expression it replaced, both lowered without optimization -> 'Class._method[Parent]' or ''"""
+    import dask
+
+    p = by_name()[case["program"]]
+    with dask.config.set({"dataframe.shuffle.method": case.get("method", "tasks"), "scheduler": "sync"}):
+        try:
+            q = build_query(p, case.get("layout", 0))
+        except Exception:  # noqa: BLE001
+            return ""
+        tr = FiringTracer(keep_examples=True)
+        try:
+            with tr:
+                q.expr.optimize(fuse=True)
+        except Exception:  # noqa: BLE001
+            pass
+        for key, ref, out in tr.order:
+            try:
+                a = _exec_unoptimized(ref)
+            except Exception:  # noqa: BLE001
+                continue
+            try:
+                b = _exec_unoptimized(out)
+            except Exception as ex:  # noqa: BLE001
+                return f"{_fmt_key(key)} (its output raises {type(ex).__name__})"
+            if not e2e.same(b, a, sort_rows=True, drop_index=True):
+                return _fmt_key(key)
+    return ""
 
 
 def _signature(r, case):
     f = r["fail"]
     fams = by_name()[case["program"]].families
-    return {"kind": f["kind"], "stage": f["stage"], "exc": f["exc"], "site": f["site"], "program": case["program"],
-            "families": "/".join(fams)}
+    try:
+        rule = blame(case)
+    except Exception:  # noqa: BLE001
+        rule = ""
+    return {"kind": f["kind"], "stage": f["stage"], "exc": f["exc"], "site": f["site"], "rule": rule,
+            "program": case["program"], "families": "/".join(fams)}
 
 
 def support(ctx, broken):
@@ -969,7 +1043,7 @@ def support(ctx, broken):
             raise RuntimeError("C01 oracle crashed on " + repr(case) + "\n" + r["why"])
         if r["status"] == "fail":
             sig = _signature(r, case)
-            key = (sig["kind"], sig["stage"], sig["exc"], sig["site"], sig["families"])
+            key = (sig["kind"], sig["stage"], sig["exc"], sig["site"], sig["rule"], sig["families"])
             if key in seen_sigs and len(sup.failures) >= 12:
                 continue
             seen_sigs.add(key)
